@@ -355,6 +355,13 @@ HEADER_POOL = [
     ("Content-Type", ["text/plain", "application/x-www-form-urlencoded", "multipart/form-data; boundary=b"]),
     ("If-None-Match", ['"a", W/"b"']),
     ("X-Forwarded-For", ["10.0.0.1", "10.0.0.2"]),
+    # names that share a prefix with the two CGI-style keys (CONTENT_TYPE / CONTENT_LENGTH) or with the HTTP_ prefix itself
+    ("Content-Encoding", ["gzip", "identity"]),
+    ("Content-Language", ["en", "de"]),
+    ("Content-Typed", ["x"]),
+    ("Content-Lengthy", ["7"]),
+    ("Content", ["bare"]),
+    ("Http-Host", ["evil.example"]),
 ]
 
 
